@@ -120,10 +120,34 @@ def run(c, prog, ctx):
         goi = [x for x in calls if x.endswith("Option::<T>::get_or_insert_with")]
         bad = [x for x in calls if re.search(r"Option::<T>::(take|insert|replace|get_or_insert)$", x)]
         c.inst("R3.accessor-fill-once", acc.split("::")[-1], len(goi) == 1 and not bad, "calls %s" % [x.split("::")[-1] for x in calls], fn.where(), acc)
+    # cached values must be functions of the transaction only: the closure that fills a cache field may
+    # capture self.tx / other caches (and, for the prevout-keyed taproot cache, the prevouts), never a
+    # per-query argument such as input_index, script_code or the hash type
+    HELPERS = {SC + "::common_cache_minimal_borrow": {1, 2}, SC + "::taproot_cache_minimal_borrow": {1, 2, 3}}
+    nfill = 0
+    for path, fn in prog.fns.items():
+        if "sighash::SighashCache" not in path or "{closure" in path:
+            continue
+        bd = fn.body
+        pv = Prov(bd)
+        for bi, t in bd.calls(lambda t: callee_name(t).endswith("Option::<T>::get_or_insert_with")):
+            tgt = pv.operand(t["args"][0])
+            cl = pv.operand(t["args"][1])
+            nfill += 1
+            allowed_args = HELPERS.get(path, {1})
+            used = set()
+            for x in walk_term(cl):
+                if x[0] == "arg":
+                    used.add(x[1])
+            c.inst("R3.cache-fill-pure", "%s fills %s" % (path.split("::")[-1], show(tgt)[-40:]), used <= allowed_args,
+                   "the closure filling this cache captures %s, which depends on query arguments %s: the cached value is then keyed by the first "
+                   "query and later queries with other arguments get a stale answer" % (show(cl)[:200], sorted(used - allowed_args)), fn.where(t["sp"]), path)
+    c.floor("R3.cache-fill-pure", 3, "common, segwit, taproot caches")
     nw = prog.fn(SC + "::new")
     t = Prov(nw.body).local(0)
-    ok = t[0] == "agg" and dict(zip(t[2], [show(x) for x in t[3]])) == {
-        "tx": "arg1", "common_cache": "std::option::Option::None{}", "segwit_cache": "std::option::Option::None{}", "taproot_cache": "std::option::Option::None{}"}
+    vals = dict(zip(t[2], [show(x) for x in t[3]])) if t[0] == "agg" else {}
+    ok = vals.get("tx") == "arg1" and all(v == "std::option::Option::None{}" for k, v in vals.items() if k != "tx") and \
+        {"common_cache", "segwit_cache", "taproot_cache"} <= set(vals)
     c.inst("R3.new-empty", "new() starts with empty caches", ok, "new returns %s" % show(t), nw.where(), nw.path)
 
     # ---- R4 Prevouts tables
